@@ -4,6 +4,7 @@ CONSTANTS
   K = 3
   MaxSteps = 8
   SeedOnOpen = FALSE
+  SeedFromBucketMark = TRUE
   MetaKeepsMark = TRUE
 VIEW View
 CHECK_DEADLOCK FALSE
